@@ -181,6 +181,9 @@ def vle_points(name):
 
 
 def judge_vle(case):
+    for first in case.get("history_before", []):
+        # an earlier best-of fit on ANOTHER data set in the same process must not change what this one returns
+        core.call(UQ.fit_vle, vle_points(first), None)
     pts = vle_points(case["dataset"])
     pristine = canon.ser(pts)
     c0 = canon.canon(pts)
@@ -203,6 +206,10 @@ def judge_vle(case):
             n += 1
             if st2 != "ok" or canon.result_digest(res2) != canon.result_digest(res):
                 v.append(core.viol("C16/vle_not_repeatable", "fit_vle(method=%r) repeated on equal data gives different parameters" % meth))
+    if not v and case.get("fresh_objective") is not None and errs.get(None) is not None:
+        if not core.close(errs[None], case["fresh_objective"], 1e-12):
+            v.append(core.viol("C16/vle_depends_on_earlier_fit", "fit_vle(None) on %s reaches objective %r after a best-of fit on %r, but %r when made first" % (
+                case["dataset"], errs[None], case["history_before"], case["fresh_objective"])))
     if not v and errs.get(None) is not None and case.get("complete"):
         # fit_vle rounds z through int(): evaluate every candidate through the returned parameter object
         for meth in methods:
@@ -298,7 +305,20 @@ def main(tier, seed):
     if q:
         vcases.append({"dataset": "MeOH_DMC", "methods": list(UQ.FITTING_ALGS), "repeat": None, "complete": True})
         vcases.append({"dataset": "MeOH_Toluene", "methods": list(UQ.FITTING_ALGS), "repeat": None, "complete": True})
-    core.run_space(rep, core.ListSpace("vle_fits", vcases), judge_vle, chunk=1, determinism_probe=0)
+    mv = core.run_space(rep, core.ListSpace("vle_fits", vcases), judge_vle, chunk=1, determinism_probe=0)
+    # histories across data sets: the best-of fit of set B made after the best-of fit of set A equals the one made first.
+    # The reference objective comes from a fresh interpreter.  (quick: two small sets; thorough: every set after the largest one)
+    def fresh_vle(name):
+        r = subprocess.run([sys.executable, "-m", "mcv.props.c16", "freshvle", name], capture_output=True, text=True, env=dict(os.environ), timeout=3000)
+        if r.returncode != 0:
+            raise RuntimeError("fresh interpreter failed: " + r.stderr[-800:])
+        return float(r.stdout.strip().splitlines()[-1])
+    pairs = [("MeOH_DMC", "MeOH_Toluene"), ("MeOH_Toluene", "MeOH_DMC")] if q else [("H2O_EtOH", b) for b in vsets if b != "H2O_EtOH"] + [("MeOH_Toluene", "H2O_iPOH")]
+    targets = sorted({b for _a, b in pairs})
+    with ThreadPoolExecutor(max_workers=core.WORKERS) as ex:
+        fresh = dict(zip(targets, ex.map(fresh_vle, targets)))
+    hcases = [{"dataset": b, "methods": [], "repeat": None, "complete": False, "history_before": [a], "fresh_objective": fresh[b]} for a, b in pairs]
+    core.run_space(rep, core.ListSpace("vle_histories", hcases), judge_vle, chunk=1, determinism_probe=0)
     fcases = []
     for al in (1e-3, 2.5, 40.0):
         for a in ((), (1.3,), (1.3, -0.4), (0.2, -1.1, 0.7)):
@@ -310,13 +330,18 @@ def main(tier, seed):
 
 
 def replay(body):
-    fn = {"fit_histories": judge_history, "vle_fits": judge_vle, "function_lattice": judge_function, "best_of_search": judge_bestof}[body["space"]]
+    fn = {"fit_histories": judge_history, "vle_fits": judge_vle, "vle_histories": judge_vle, "function_lattice": judge_function, "best_of_search": judge_bestof}[body["space"]]
     r = fn(body["case"])
     for v in r["viol"]:
         print("violation key=%s: %s" % (v["key"], v["msg"]))
     print("replayed: outcome=%s violations=%d" % (r["outcome"], len(r["viol"])))
     return 1 if r["viol"] else 0
 
+
+if __name__ == "__main__" and len(sys.argv) >= 3 and sys.argv[1] == "freshvle":
+    _p = vle_points(sys.argv[2])
+    _r = UQ.fit_vle(_p, None)
+    print(repr(float(UQ.objective(data=_p, params=[_r.alpha_12, _r.alpha_21, _r.beta_12, _r.beta_21, _r.z]))))
 
 if __name__ == "__main__" and len(sys.argv) >= 4 and sys.argv[1] == "fresh":
     _w = build_world(sys.argv[2])
